@@ -27,7 +27,7 @@ from vf.props import c05
 
 ID = 'C10'
 LEVEL = 'fault_enumeration'
-ROLES = ['forward', 'tunnel', 'web', 'static', 'reverse', 'reverse-keepalive', 'nonutf8-target', 'close-hook-raises', 'bad-request', 'not-found', 'auth-failed', 'tls-handshake-fails']
+ROLES = ['forward', 'forward-pooled', 'tunnel-pooled', 'tunnel', 'web', 'static', 'reverse', 'reverse-keepalive', 'nonutf8-target', 'close-hook-raises', 'bad-request', 'not-found', 'auth-failed', 'tls-handshake-fails']
 MODES = ['local', 'remote', 'threaded']
 RULE = ('enumeration: for each (role, mode) a fault-free dry run counts the proxy socket calls and the peer actions of the '
         'connection; every (call ordinal x errno), (action index x peer fault), connect fault and the idle-timeout ending is run; '
@@ -54,8 +54,8 @@ def tls_files() -> Tuple[str, str]:
     return _F[key][0], _F[key][1]
 
 
-def flags_for(mode: str, auth: bool, tls: bool = False) -> Any:
-    key = (mode, auth, tls, os.getpid())
+def flags_for(mode: str, auth: bool, tls: bool = False, pool: bool = False) -> Any:
+    key = (mode, auth, tls, pool, os.getpid())
     if key not in _F:
         from vf.props import c04, c07
         c05.flags()       # makes sure the plugin classes exist
@@ -65,6 +65,8 @@ def flags_for(mode: str, auth: bool, tls: bool = False) -> Any:
         opts: Dict[str, Any] = {'plugins': [c07.route_plugin(), c04._reverse_plugin(), c05._F['explode']]}
         if auth:
             opts['basic_auth'] = 'user:pass'
+        if pool:
+            argv += ['--enable-conn-pool']      # upstream connections are acquired from / released to the worker's pool
         if tls:
             k_, c_ = tls_files()
             argv += ['--key-file', k_, '--cert-file', c_]
@@ -75,6 +77,8 @@ def flags_for(mode: str, auth: bool, tls: bool = False) -> Any:
 def conversation(role: str, i: int = 0) -> Dict[str, Any]:
     if role in ('forward', 'tunnel', 'web', 'reverse'):
         return c05.conversation(role, 'canary')
+    if role.endswith('-pooled'):
+        return c05.conversation(role[:-7], 'canary')
     if role == 'reverse-keepalive':
         one = c05.conversation('reverse', 'canary')['requests'][0]
         return {'requests': [one, one.replace(b'/ra/canary', b'/rb/second'), one], 'tunnel': None}
@@ -107,7 +111,7 @@ def fd_count() -> int:
 def run_case(c: Dict[str, Any], dry: bool = False) -> Dict[str, Any]:
     mode = c['mode']
     roles = c['roles']      # one or many consecutive connections
-    flags = flags_for(mode, 'auth-failed' in roles, 'tls-handshake-fails' in roles)
+    flags = flags_for(mode, 'auth-failed' in roles, 'tls-handshake-fails' in roles, any(r.endswith('-pooled') for r in roles))
     K.CLOCK.reset()
     gc.collect()
     base_fds = fd_count()
@@ -209,6 +213,8 @@ def run_case(c: Dict[str, Any], dry: bool = False) -> Dict[str, Any]:
             snap['works'] = len(ex.works)
             snap['registered'] = {k_: dict(v) for k_, v in ex.registered_events_by_work_ids.items()}
             snap['unfinished'] = len(ex.unfinished)
+            pool = getattr(ex, '_upstream_conn_pool', None)
+            snap['pool'] = None if pool is None else {'connections': len(pool.connections), 'pooled': sum(len(v) for v in pool.pools.values())}
             wq = ex.work_queue_fileno()
             snap['selector'] = sorted(fd for fd in ex.selector.get_map() if fd != wq) if ex.selector is not None else None
         state['snapshots'].append(snap)
@@ -273,6 +279,9 @@ def evaluate(c: Dict[str, Any]) -> Tuple[List[Any], Dict[str, Any]]:
             if s['open_socks']:
                 out.append(('socket-left-open', feat, {'after_connection': i, 'sockets': s['open_socks']}, []))
             if c['mode'] != 'threaded':
+                if s.get('pool') and (s['pool']['connections'] or s['pool']['pooled']):
+                    # nothing in proxy.py retains a pooled connection for reuse: after the connection is over the pool is empty again
+                    out.append(('connection-pool-not-restored', feat, {'after_connection': i, 'pool': s['pool']}, 'empty'))
                 if s['works'] or s['registered'] or s['unfinished']:
                     out.append(('executor-bookkeeping-not-restored', feat, {'after_connection': i, 'works': s['works'],
                                                                           'registered': s['registered'], 'unfinished': s['unfinished']}, 'empty'))
@@ -307,6 +316,8 @@ def shards(tier: str) -> List[Dict[str, Any]]:
         for role in ROLES:
             if q and mode != 'local' and role in ('not-found', 'bad-request', 'static'):
                 continue
+            if mode == 'threaded' and role.endswith('-pooled'):
+                continue      # the threaded driver has no pool (Threaded work is created with upstream_conn_pool=None)
             if mode == 'threaded' and role == 'close-hook-raises':
                 # a user plugin raising from a close hook is not one of the endings C10 lists (it is C05's business); in
                 # the executors the work is dropped and its sockets are finalised, which is what this role pins; in the
@@ -339,7 +350,7 @@ def run_shard(spec: Dict[str, Any], seed: int, acc: Any) -> None:
             for k_ in range(nacts):
                 for pf in c05.PEER_FAULTS:
                     cases.append(dict(base, fault={'type': 'peer', 'k': k_, 'what': pf}))
-            if spec['role'] in ('forward', 'tunnel', 'reverse', 'reverse-keepalive', 'nonutf8-target', 'close-hook-raises'):
+            if spec['role'] in ('forward', 'forward-pooled', 'tunnel-pooled', 'tunnel', 'reverse', 'reverse-keepalive', 'nonutf8-target', 'close-hook-raises'):
                 for cf in c05.CONNECT_FAULTS:
                     cases.append(dict(base, fault={'type': 'connect', 'what': cf}))
             cases.append(dict(base, fault={'type': 'idle'}))
@@ -357,7 +368,7 @@ def run_shard(spec: Dict[str, Any], seed: int, acc: Any) -> None:
                                         % (spec['mode'], spec['role'], ncalls, len(c05.ERRNOS), nacts, len(c05.PEER_FAULTS)))
             return
         if spec['kind'] == 'repeat':
-            roles = [r for r in ROLES if r not in ('auth-failed', 'tls-handshake-fails') and not (spec['mode'] == 'threaded' and r == 'close-hook-raises')]
+            roles = [r for r in ROLES if r not in ('auth-failed', 'tls-handshake-fails') and not (spec['mode'] == 'threaded' and (r == 'close-hook-raises' or r.endswith('-pooled')))]
             seq = [roles[(i * 5 + i // 7) % len(roles)] for i in range(spec['n'])]
             if spec.get('only'):
                 seq = [spec['only']] * spec['n']
@@ -385,6 +396,8 @@ def run_shard(spec: Dict[str, Any], seed: int, acc: Any) -> None:
             elif ft == 'idle':
                 fault = {'type': 'idle', 'conn': conn}
             c = {'mode': draw(st.sampled_from(MODES)), 'roles': roles}
+            if c['mode'] == 'threaded':
+                c['roles'] = [r[:-7] if r.endswith('-pooled') else r for r in roles]
             if fault:
                 c['fault'] = fault
             return c
